@@ -113,7 +113,9 @@ impl PathSelector {
             // standing for the bytes that are not valid UTF-8 match each other.
             let base_dir_pat = base_dir.to_string_lossy();
             let base_dir_pat = Pattern::literal(Self::append_sep(base_dir_pat).as_str());
-            base_dir_pat + pattern
+            // `./a` means the same as `a`, and the scanned paths have no `.` components
+            let current_dir = Self::append_sep(".".to_string());
+            base_dir_pat + pattern.strip_literal_prefix(current_dir.as_str())
         }
     }
 
